@@ -46,6 +46,7 @@ type c20field struct {
 	leaf *c20leaf
 	sub  []c20field // nested struct when leaf == nil
 	opt  string     // "", "?" or "!"
+	ref  bool       // value is a reference to the preceding sibling: no data generated
 }
 
 type c20gen struct {
@@ -91,6 +92,8 @@ func (g *c20gen) fields(depth int) []c20field {
 		if g.r.Chance(1, 8) {
 			f.opt = Pick(g.r, []string{"?", "?", "!"})
 			g.feat("field" + f.opt)
+		} else if i > 0 && f.leaf != nil && fs[i-1].leaf != nil && fs[i-1].opt == "" && g.r.Chance(1, 7) {
+			f.ref = true
 		}
 		fs = append(fs, f)
 	}
@@ -103,14 +106,10 @@ func (g *c20gen) schemaText(fs []c20field) string {
 	for i, f := range fs {
 		if f.leaf != nil {
 			v := f.leaf.schema
-			if i > 0 && fs[i-1].leaf != nil && g.r.Chance(1, 7) && f.opt == "" {
-				v = fs[i-1].name // reference to a sibling
-				if fs[i-1].opt == "" {
-					g.feat("sibling-ref")
-					parts = append(parts, fmt.Sprintf("%s: %s", f.name, v))
-					continue
-				}
-				v = f.leaf.schema
+			if f.ref && i > 0 {
+				g.feat("sibling-ref")
+				parts = append(parts, fmt.Sprintf("%s: %s", f.name, fs[i-1].name))
+				continue
 			}
 			parts = append(parts, fmt.Sprintf("%s%s: %s", f.name, f.opt, v))
 		} else {
@@ -123,8 +122,15 @@ func (g *c20gen) schemaText(fs []c20field) string {
 // dataText renders data for the fields: per field omit / same / other / conflict.
 // mode biases: "repeat" mostly same, "mixed".
 func (g *c20gen) dataText(fs []c20field) string {
+	return strings.Join(g.dataParts(fs), ", ")
+}
+
+func (g *c20gen) dataParts(fs []c20field) []string {
 	var parts []string
 	for _, f := range fs {
+		if f.ref {
+			continue
+		}
 		if f.leaf == nil {
 			if g.r.Chance(2, 3) {
 				parts = append(parts, fmt.Sprintf("%s: {%s}", f.name, g.dataText(f.sub)))
@@ -150,7 +156,7 @@ func (g *c20gen) dataText(fs []c20field) string {
 			parts = append(parts, fmt.Sprintf("%s: %s", f.name, l.other[0]))
 		}
 	}
-	return strings.Join(parts, ", ")
+	return parts
 }
 
 // firstConcrete returns a field (top level, leaf) and a concrete value usable in
@@ -214,10 +220,8 @@ func (g *c20gen) unitDefData() {
 		g.add(fmt.Sprintf("%s: {%s}", x, g.dataText(fs)))
 	case 2:
 		g.add(fmt.Sprintf("%s: %s", x, d))
-		for _, part := range strings.Split(g.dataText(fs), ", ") {
-			if part != "" && !strings.Contains(part, "{") {
-				g.add(fmt.Sprintf("%s: %s", x, part))
-			}
+		for _, part := range g.dataParts(fs) {
+			g.add(fmt.Sprintf("%s: %s", x, part))
 		}
 		g.feat("data-split")
 	case 3:
@@ -229,7 +233,7 @@ func (g *c20gen) unitDefData() {
 		y := g.id("r")
 		g.add(fmt.Sprintf("%s: %s.%s", y, x, n))
 		if g.r.Bool() {
-			g.add(fmt.Sprintf("%s: %s", y, Pick(g.r, []string{"1", "2", "int"})))
+			g.add(fmt.Sprintf("%s: %s", y, Pick(g.r, []string{"1", "int", "number", ">=0"})))
 		}
 		g.feat("ref-into-data")
 	}
@@ -238,6 +242,7 @@ func (g *c20gen) unitDefData() {
 func (g *c20gen) unitPattern() {
 	x := g.id("objs")
 	var fs []c20field
+	aliasForm := false
 	switch g.r.Intn(3) {
 	case 0:
 		var d string
@@ -247,6 +252,7 @@ func (g *c20gen) unitPattern() {
 		fs = g.fields(1)
 		g.add(fmt.Sprintf("%s: [Name=string]: {name: Name, %s}", x, g.schemaText(fs)))
 		g.feat("pattern-alias")
+		aliasForm = true
 	case 2:
 		fs = g.fields(1)
 		g.add(fmt.Sprintf("%s: [=~\"^a\"]: {%s}", x, g.schemaText(fs)))
@@ -258,7 +264,7 @@ func (g *c20gen) unitPattern() {
 	for i := 0; i < n; i++ {
 		k := keys[i]
 		d := g.dataText(fs)
-		if g.r.Chance(1, 4) {
+		if aliasForm && g.r.Chance(1, 3) {
 			d += fmt.Sprintf(", name: %q", k)
 		}
 		d = strings.TrimPrefix(d, ", ")
@@ -292,7 +298,7 @@ func (g *c20gen) unitPattern() {
 func (g *c20gen) unitDisjStruct() {
 	d := g.id("#U")
 	form := g.r.Intn(2)
-	if g.r.Chance(1, 12) {
+	if g.r.Chance(1, 40) {
 		// (embedded disjunctions: trim.Files does not terminate on a definition of this
 		// shape that is left unresolved — kept rare because each one costs a worker)
 		form = 2 + g.r.Intn(2)
@@ -529,8 +535,24 @@ func (g *c20gen) unitHiddenImport() {
 	}
 }
 
-// Package generates one package.
+// c20GenPackage generates one package; unless errOK, candidates whose value has an
+// evaluation error (trim.Files refuses those) are regenerated a few times.
 func c20GenPackage(r *Rng, errOK bool) (c20Pkg, map[string]bool) {
+	var p c20Pkg
+	var feats map[string]bool
+	for try := 0; try < 4; try++ {
+		p, feats = c20GenPackage1(r.Sub(), errOK)
+		if errOK || c20HasEmbeddedDisjunction(p) {
+			break
+		}
+		if l, err := c20Load(p); err == nil && l.val.Err() == nil {
+			break
+		}
+	}
+	return p, feats
+}
+
+func c20GenPackage1(r *Rng, errOK bool) (c20Pkg, map[string]bool) {
 	g := &c20gen{r: r, feats: map[string]bool{}, defs: map[string][]c20field{}, errOK: errOK}
 	g.nfiles = 1 + r.Intn(3)
 	units := []func(){g.unitDefData, g.unitDefData, g.unitPattern, g.unitPattern, g.unitDisjStruct, g.unitRevive,
